@@ -170,7 +170,29 @@ def sym_ord(x):
     return builtins.ord(x)
 
 
+# hash of a str: 'real' = the interpreter's, 'sym' = one unconstrained symbolic integer per distinct string (string-hash
+# randomisation as a quantified variable).  Only hash() calls written outside a __hash__ method body ("explicit" ones) and
+# whatever they reach see the symbolic value: a __hash__ method entered directly by the interpreter (dict / set protocol)
+# must return a real int.
+STR_HASH = ['real']
+_explicit = [0]
+
+
 def sym_hash(x):
+    _explicit[0] += 1
+    try:
+        return _sym_hash(x)
+    finally:
+        _explicit[0] -= 1
+
+
+def sym_hash_inner(x):
+    return _sym_hash(x)
+
+
+def _sym_hash(x):
+    if isinstance(x, str) and STR_HASH[0] == 'sym' and _explicit[0] > 0 and core.Ctx.cur is not None:
+        return SInt.var('strhash:' + x, -(1 << 62), 1 << 62)
     if isinstance(x, (SInt, SBool)) or (isinstance(x, _int) and not isinstance(x, bool)):
         if HASH_MODE[0] == 'const':
             return 0
@@ -461,6 +483,7 @@ SHIMS = {
     '__sym_isinstance__': sym_isinstance,
     '__sym_ord__': sym_ord,
     '__sym_hash__': sym_hash,
+    '__sym_hash_inner__': sym_hash_inner,
     '__sym_hex__': sym_hex,
     '__sym_getitem__': sym_getitem,
     '__sym_mod__': sym_mod,
@@ -478,12 +501,26 @@ _CALLS = {'int': '__sym_int__', 'long': '__sym_int__', 'type': '__sym_type__', '
 
 
 class Transformer(ast.NodeTransformer):
+    def __init__(self):
+        self.fstack = []
+
+    def visit_FunctionDef(self, node):
+        self.fstack.append(node.name)
+        try:
+            self.generic_visit(node)
+        finally:
+            self.fstack.pop()
+        return node
+
     def visit_Call(self, node):
         self.generic_visit(node)
         if isinstance(node.func, ast.Name) and node.func.id in _CALLS:
             if node.func.id == 'type' and len(node.args) != 1:
                 return node
-            node.func = ast.Name(id=_CALLS[node.func.id], ctx=ast.Load())
+            name = _CALLS[node.func.id]
+            if node.func.id == 'hash' and '__hash__' in self.fstack:
+                name = '__sym_hash_inner__'
+            node.func = ast.Name(id=name, ctx=ast.Load())
         return node
 
     def visit_Attribute(self, node):
